@@ -223,8 +223,9 @@ std::string hostile_login_reply(Rng &r)
 		return s;
 	};
 	auto field_num = [&]() {
-		static const char *nums[] = {"0", "200", "201", "1500", "1501", "-1", "2147483648", "33", "32", "31", "8", "30", "1130", "27", "4294967295", "-2147483648", "99999999999999999999"};
-		std::string s = nums[r.range(0, 16)];
+		static const char *nums[] = {"0", "200", "201", "1500", "1501", "-1", "2147483648", "33", "32", "31", "8", "30", "1130", "27", "4294967295", "-2147483648", "99999999999999999999",
+			"65737", "66736", "67036", "131273", "-64336", "4294902960", "4294968496", "65536", "65535", "-65335"};     // in range only modulo 2^16 / 2^32
+		std::string s = nums[r.range(0, 26)];
 		if (r.chance(0.3)) s += frag[r.range(0, 27)];
 		return s;
 	};
